@@ -105,6 +105,8 @@ def units(tier, seed):
                             out.append(dict(config=cfg, procedure=proc, solver=sol, first=first, second=second, L=Lq, tier=tier))
                     else:
                         out.append(dict(config=cfg, procedure=proc, solver=sol, first=first, L=Lq, tier=tier))
+    # variance minimisation with a requested total on a system WITHOUT upper bounds (the documented default), every batch size
+    out.append(dict(kind="unbounded-L1", config="unbounded", procedure="minvar-L1", solver="clarabel", first=0, L=3, tier=tier))
     out.sort(key=lambda u: 0 if u["procedure"] == "excitation" else 1)  # slow units first
     return out
 
@@ -170,7 +172,46 @@ def _script(spec, proc, rows, W, bs, okw, use_W, L1=None):
     return s
 
 
+def _run_unbounded_L1(unit, rec):
+    from dreye.api.optimize.lsq_linear import lsq_linear_minimize
+
+    A = AL.A_palette(2, 4, seeded=False)[0][1]
+    n = A.shape[1]
+    Xg = np.array([[0.5, 0.25, 0.75, 0.5], [1.0, 0.125, 0.25, 0.75], [0.25, 0.5, 0.5, 0.25], [0.75, 0.75, 0.125, 1.0], [0.4, 0.9, 0.6, 0.2]])
+    Ball = Xg @ A.T
+    kw0 = dict(lb=np.zeros(n), ub=None, l2_eps=1e-4, l1_eps=1e-2, solver="CLARABEL")
+    base = dict(config="unbounded", procedure="minvar-L1", solver="clarabel")
+    # admissible totals: 10 % above the totals of the unconstrained minimum-variance solutions
+    X0 = np.asarray(lsq_linear_minimize(A, Ball, batch_size=1, **kw0), dtype=float)
+    L1 = 1.1 * X0.sum(1)
+    for N in (1, 2, 3, 5):
+        rec.trans()
+        ref = np.asarray(lsq_linear_minimize(A, Ball[:N], L1=L1[:N], batch_size=1, **kw0), dtype=float)
+        for bs in list(range(1, N + 3)) + ["full"]:
+            eff = N if bs == "full" else bs
+            bcls = "bs=1" if eff == 1 else ("bs>n" if eff > N else ("bs|n" if N % eff == 0 else "bs-not-dividing-n"))
+            sig = dict(base, batch=bcls, layout="C")
+            case = dict(rows=N, batch_size=bs, ub=None)
+            rec.path()
+            rec.trans()
+            try:
+                X = np.asarray(lsq_linear_minimize(A, Ball[:N], L1=L1[:N], batch_size=bs, **kw0), dtype=float)
+            except Exception as e:  # noqa
+                _v(rec, "a", dict(sig, **exc_sig(e)), "variance minimisation with a requested total, no upper bounds, %d rows and batch_size=%r raised %r" % (N, bs, e), case,
+                   script="import numpy as np\nfrom dreye.api.optimize.lsq_linear import lsq_linear_minimize\nA = np.array(%r)\nB = np.array(%r)\nprint(lsq_linear_minimize(A, B, L1=np.array(%r), lb=np.zeros(%d), ub=None, l2_eps=1e-4, l1_eps=1e-2, batch_size=%r))\n" % (A.tolist(), Ball[:N].tolist(), L1[:N].tolist(), n, bs))
+                rec.outcome("%s/exception" % bcls)
+                continue
+            rec.distinct(("unbounded-L1", N, str(bs)))
+            same = X.shape == ref.shape and float(np.max(np.abs(X - ref))) <= 5e-3
+            rec.outcome("%s/%s" % (bcls, "same" if same else "differs"))
+            if not same:
+                _v(rec, "c", dict(sig, what="row-result"), "variance minimisation with a requested total (no upper bounds): the result depends on the batch size", case, observed=X, expected=ref)
+    rec.sample(dict(config="unbounded", procedure="minvar-L1"), cap=1)
+
+
 def run_unit(unit, rec):
+    if unit.get("kind") == "unbounded-L1":
+        return _run_unbounded_L1(unit, rec)
     cfg, proc, sol, first, L = unit["config"], unit["procedure"], unit["solver"], unit["first"], unit["L"]
     spec = _spec(cfg)
     use_W = CONFIGS[cfg]["W"]
